@@ -1170,10 +1170,14 @@ bool tree<Key, Value, ValueEqual>::compare(
               return false;
             }
           }
-          if (compare_left_to_right && po.default_is_top() && !t->is_leaf()) {
+          // t has some key that s (a single leaf) lacks: either t has
+          // several keys or t is a leaf with a different key.
+          if (compare_left_to_right && po.default_is_top() &&
+              (!t->is_leaf() || !value_)) {
             return false;
           }
-          if (!compare_left_to_right && !po.default_is_top() && !t->is_leaf()) {
+          if (!compare_left_to_right && !po.default_is_top() &&
+              (!t->is_leaf() || !value_)) {
             return false;
           }
         } else if (t->is_leaf()) {
